@@ -207,6 +207,8 @@ pub struct BlobInfo {
     pub counter: u64,
     pub params: Vec<Param>,
     pub seed: Vec<u8>,
+    /// the 8 parameter bytes as stored (bytes after the 0xff terminator are carried along unchanged)
+    pub param_bytes: [u8; 8],
 }
 
 impl Model {
@@ -672,7 +674,7 @@ impl Model {
         if params.is_empty() {
             return Err("empty parameter list".into());
         }
-        Ok(BlobInfo { counter, params, seed: blob[16..].to_vec() })
+        Ok(BlobInfo { counter, params, seed: blob[16..].to_vec(), param_bytes: blob[8..16].try_into().unwrap() })
     }
 
     pub fn heights(&self, params: &[Param]) -> Vec<u32> {
@@ -710,7 +712,11 @@ impl Model {
         if (info.counter as u128) + 1 >= total {
             self.wipe_image()
         } else {
-            self.make_blob(info.counter + 1, &info.params, &info.seed)
+            // consecutive keys differ only by the counter
+            let mut b = (info.counter + 1).to_be_bytes().to_vec();
+            b.extend_from_slice(&info.param_bytes);
+            b.extend_from_slice(&info.seed);
+            b
         }
     }
 
